@@ -7,7 +7,6 @@ package c05
 
 import (
 	"bytes"
-	"context"
 	"fmt"
 	"math/rand"
 	"sort"
@@ -68,6 +67,9 @@ type obs struct {
 	logTo         int
 	seqFrom       int64
 	seqTo         int64
+	cc            *callCtx
+	ctxEnded      atomic.Bool // the caller's context ended during the call
+	followUp      bool        // a live-context read right after a call whose context ended during it
 	layout        string
 }
 
@@ -80,6 +82,10 @@ type sessState struct {
 	moved     int
 	asyncBG   bool
 	read      map[string]bool // keys already read through get/batchget at the current ts (cache may be warm)
+	// the previous read of this snapshot ran under a context that ended during the call
+	endedBefore   bool
+	pendingFollow []string // keys of a call whose context ended: read them on every path next
+	followAll     bool
 	log       []string
 }
 
@@ -324,17 +330,51 @@ func (h *hist) doRead(si, oi, rep int, st *sessState, path string, keys []string
 	h.classify(o, h.lockView())
 	o.layout = h.layout()
 	at, fn := h.planHook(o)
+	o.cc = h.planCtx(path, rep)
+	o.followUp = st.endedBefore || st.followAll
 	var cnt atomic.Int64
-	if fn != nil {
+	if fn != nil || o.cc.during != "" {
+		cc := o.cc
+		endCtx := func() {
+			o.ctxEnded.Store(true)
+			cc.end()
+		}
 		st.rd.Net.SetDecider(func(c *uni.Call) uni.Action {
 			if !isReadPathCmd(c.Cmd) {
 				return uni.Action{}
 			}
-			if cnt.Add(1) == at {
-				return uni.Action{Before: fn}
+			n := cnt.Add(1)
+			act := uni.Action{}
+			if fn != nil && n == at {
+				act.Before = fn
 			}
-			return uni.Action{}
+			if cc.during != "" && n == cc.atRPC {
+				topo := act.Before
+				switch cc.during {
+				case "before-drop": // the context ends, the request never reaches the store
+					act.Kind = uni.DropReq
+					act.Before = func() {
+						if topo != nil {
+							topo()
+						}
+						endCtx()
+					}
+				case "before-deliver": // the context ends, the request is executed and answered all the same
+					act.Before = func() {
+						if topo != nil {
+							topo()
+						}
+						endCtx()
+					}
+				default: // executed and answered, the context has ended when the answer arrives
+					act.After = endCtx
+				}
+			}
+			return act
 		})
+	}
+	if debugOn() {
+		fmt.Println("READ", describe(o)) // before running it: a process-fatal panic in a background goroutine names the read
 	}
 	o.logFrom = h.u.Log.Len()
 	o.seqFrom = h.u.Log.Now()
@@ -371,6 +411,14 @@ func (h *hist) doRead(si, oi, rep int, st *sessState, path string, keys []string
 		return
 	}
 	st.rd.Net.SetDecider(nil)
+	if o.cc.endLate {
+		o.cc.end()
+	}
+	o.cc.end() // release the context's resources in every case
+	st.endedBefore = o.ctxEnded.Load()
+	if st.endedBefore {
+		st.pendingFollow = keys
+	}
 	o.logTo = h.u.Log.Len()
 	o.seqTo = h.u.Log.Now()
 	for _, c := range h.u.Log.CallsFrom(o.logFrom) {
@@ -409,6 +457,12 @@ func describe(o *obs) string {
 	if o.warm {
 		b.WriteString(" warm")
 	}
+	if o.cc != nil && o.cc.kind != "background" && o.cc.kind != "none(scan)" {
+		fmt.Fprintf(&b, " ctx=%s@rpc%d(ended=%v)", o.cc.kind, o.cc.atRPC, o.ctxEnded.Load())
+	}
+	if o.followUp {
+		b.WriteString(" after-ended-ctx-call")
+	}
 	if o.hook != "" {
 		fmt.Fprintf(&b, " hook=%s(done=%v)", o.hook, o.hookDone.Load())
 	}
@@ -445,7 +499,7 @@ func bound(b []byte) string {
 func errString(err error) string { return fmt.Sprintf("%T: %v", err, err) }
 
 func (h *hist) execute(o *obs, st *sessState) {
-	ctx := context.Background()
+	ctx := o.cc.ctx
 	switch o.path {
 	case "get":
 		e, err := st.snap.Get(ctx, []byte(o.keys[0]))
@@ -772,6 +826,16 @@ func (h *hist) session(si int, nOps int) {
 			for rep := 0; rep < 2 && !h.aborted; rep++ {
 				h.doRead(si, oi, rep, st, path, keys, lower, upper)
 			}
+			if pf := st.pendingFollow; pf != nil && !h.aborted {
+				st.pendingFollow = nil
+				if h.rng.Intn(2) == 0 {
+					// the same snapshot, live contexts, every access path over the keys of the call whose context ended
+					st.followAll = true
+					h.allPaths(si, st, pf)
+					st.followAll = false
+					h.r.Count("all_path_followups_after_ended_ctx_call", 1)
+				}
+			}
 		}
 	}
 }
@@ -822,6 +886,9 @@ func movedTag(o *obs) string {
 		tag = ":after-SetSnapshotTS-forward"
 	case -1:
 		tag = ":after-SetSnapshotTS-backward"
+	}
+	if o.followUp {
+		tag += ":right-after-a-call-whose-context-ended"
 	}
 	return tag
 }
@@ -883,7 +950,10 @@ func (h *hist) judge(o *obs, truth *uni.Truth) {
 	r.Count("reads:"+o.path, 1)
 	fp := fmt.Sprintf("%s|%s|%v|warm=%v|moved=%d|ko=%v|hook=%s/%v|b=%d|async=%v|multi=%v|err=%v", h.backend, o.path, o.classes, o.warm, o.moved, o.keyOnly && o.path != "get" && o.path != "batchget",
 		o.hook, o.hookDone.Load(), min(o.batchSize, 6), o.asyncBG && o.path == "batchget", o.regions > 1, o.err != "")
-	if len(o.classes) > 0 || o.moved != 0 || o.hookDone.Load() {
+	if o.cc != nil {
+		fp += fmt.Sprintf("|ctx=%s/%v|follow=%v", o.cc.kind, o.ctxEnded.Load(), o.followUp)
+	}
+	if len(o.classes) > 0 || o.moved != 0 || o.hookDone.Load() || o.ctxEnded.Load() || o.followUp {
 		r.Distinct(fp)
 	}
 	for _, c := range o.classes {
@@ -901,12 +971,31 @@ func (h *hist) judge(o *obs, truth *uni.Truth) {
 	if o.regions > 1 {
 		r.Count("multi_request:"+o.path, 1)
 	}
+	if o.cc != nil {
+		r.Count("ctx:"+o.cc.kind, 1)
+		if o.ctxEnded.Load() {
+			r.Count("ctx_ended_during_call", 1)
+			if o.err != "" {
+				r.Count("ctx_ended_during_call:returned-error", 1)
+			} else {
+				r.Count("ctx_ended_during_call:returned-answer(judged)", 1)
+			}
+		}
+	}
+	if o.followUp && o.err == "" {
+		r.Count("reads_judged_right_after_ended_ctx_call:"+o.path, 1)
+	}
 	if o.panicked != "" {
 		h.violate(o, truth, "client-panic:"+o.path+":"+h.backend, "panic: "+o.panicked, nil)
 		return
 	}
 	if o.err != "" {
 		r.Count("read_errors", 1)
+		if o.ctxEnded.Load() {
+			// the caller's context ended during this call: an error is what the caller asked for
+			r.Count("read_errors_under_ended_context", 1)
+			return
+		}
 		if o.demanded {
 			h.violate(o, truth, fmt.Sprintf("read-fails-though-every-lock-is-decided:%s:%s:%s", o.path, errClass(o.err), h.backend),
 				"the read returned an error although every blocking lock on its keys belonged to a finished transaction: "+o.err, nil)
